@@ -113,10 +113,14 @@ def x_init(missing):
     if idx_sorted is None:
         raise Unsupported("_stateIndex assignment not found")
     require(st, ["self._stateName = state_name", "self._y = y", "self._t0 = t0", "self._observeT = t.copy()",
-                 "self._t = np.insert(t, 0, t0)", "self._setParam(theta)", "self._setX0(x0)",
+                 "self._setParam(theta)", "self._setX0(x0)",
                  "assert len(t) == n, 'Number of observations and time must be equal'",
                  "assert p == len(state_name), 'len(state_name) and len(y[0]) not equal'",
                  "self._lossObj = self._setLossType()"], "__init__", missing)
+    # the grid with the initial time prepended (used by the gradient routines; float cast or not, same values)
+    if not any(canon(x) in st for x in ("self._t = np.insert(t, 0, t0)", "self._t = np.insert(np.asarray(t, dtype=float), 0, t0)",
+                                        "self._t = np.append(t0, t)")):
+        missing.append("__init__: `self._t = np.insert(t, 0, t0)`")
     nw = st.count(canon("self._weight = self._setWeight_or_spread(n, p, state_weight, is_weights=True)"))
     ns = st.count(canon("self._spread_param = self._setWeight_or_spread(n, p, spread_param, is_weights=False)"))
     if nw != 2 or ns != 2 or sum(s.startswith("self._weight = ") for s in st) != 2 \
